@@ -1,2 +1,2 @@
-CONSTANTS MaxLines = 7 MaxDepth = 3 Mode = "defect" UnitKinds = {"module", "program", "sub", "fun"} ConstructKinds = {"block", "if", "do", "select"}
+CONSTANTS MaxLines = 7 MaxDepth = 3 Mode = "defect" UnitKinds = {"module", "submodule", "program", "sub", "fun"} ConstructKinds = {"block", "if", "do", "select"}
 SPECIFICATION SpecDefect
